@@ -216,172 +216,197 @@ theorem C33_witnesses_answered_after_fix :
         refType := some 35, isForward := true }).1 = .status .BadReferenceNotAllowed := by
   decide
 
-/-! ### recorded findings: event where-clause evaluation (`events/operator.rs`, repaired under C39) -/
+/-! ### event where-clause evaluation (`events/operator.rs`): pinned source panics, repaired source total -/
 
 theorem C33_counterexample_evfilter_operand_count :
-    whereClausePanics [⟨.eq, [.lit .int]⟩] = some .operandIndex ∧
-    whereClausePanics [⟨.between, [.lit .int, .lit .int]⟩] = some .operandIndex := by decide
+    whereClausePanics false [⟨.eq, [.lit .int]⟩] = some .operandIndex ∧
+    whereClausePanics false [⟨.between, [.lit .int, .lit .int]⟩] = some .operandIndex := by decide
 
 theorem C33_counterexample_evfilter_element_index :
-    whereClausePanics [⟨.and, [.elem 5, .lit .int]⟩] = some .elementIndex := by decide
+    whereClausePanics false [⟨.and, [.elem 5, .lit .int]⟩] = some .elementIndex := by decide
 
 theorem C33_counterexample_evfilter_attribute_operand :
-    whereClausePanics [⟨.not, [.attr]⟩] = some .attributeOperand := by decide
+    whereClausePanics false [⟨.not, [.attr]⟩] = some .attributeOperand := by decide
 
 theorem C33_counterexample_evfilter_nonconvertible_compare :
-    whereClausePanics [⟨.gt, [.lit .int, .lit .empty]⟩] = some .compareValues ∧
-    whereClausePanics [⟨.gt, [.lit .empty, .lit .int]⟩] = none := by decide
+    whereClausePanics false [⟨.gt, [.lit .int, .lit .empty]⟩] = some .compareValues ∧
+    whereClausePanics false [⟨.gt, [.lit .empty, .lit .int]⟩] = none := by decide
 
-/-- a where-clause outside the recorded classes: every element has at least three operands, every
-operand is an Int32 literal or an element reference inside the clause -/
-def SafeOperand (n : Nat) (o : Operand) : Prop := o = .lit .int ∨ ∃ i, o = .elem i ∧ i < n
+/-- the same clauses on the repaired source -/
+theorem C33_evfilter_witnesses_answered_after_fix :
+    whereClausePanics true [⟨.eq, [.lit .int]⟩] = none ∧
+    whereClausePanics true [⟨.between, [.lit .int, .lit .int]⟩] = none ∧
+    whereClausePanics true [⟨.and, [.elem 5, .lit .int]⟩] = none ∧
+    whereClausePanics true [⟨.not, [.attr]⟩] = none ∧
+    whereClausePanics true [⟨.gt, [.lit .int, .lit .empty]⟩] = none := by decide
 
-def SafeClause (els : List Elem) : Prop :=
-  ∀ e ∈ els, 3 ≤ e.operands.length ∧ ∀ o ∈ e.operands, SafeOperand els.length o
+/-- not a panic -/
+def NP (v : Ev) : Prop := ∀ s, v ≠ .panic s
 
-/-- values that cannot make a comparison panic -/
-def Calm (v : Ev) : Prop := v = .val .int ∨ v = .bool ∨ v = .err
+theorem cmp_np {a b : Ev} (ha : NP a) (hb : NP b) : NP (cmp true a b) := by
+  intro s
+  cases a with
+  | panic t => exact absurd rfl (ha t)
+  | err => simp [cmp]
+  | val la =>
+    cases b with
+    | panic t => exact absurd rfl (hb t)
+    | err => simp [cmp]
+    | val lb => cases la <;> cases lb <;> simp [cmp]
+    | bool => cases la <;> simp [cmp]
+  | bool =>
+    cases b with
+    | panic t => exact absurd rfl (hb t)
+    | err => simp [cmp]
+    | val lb => simp [cmp]
+    | bool => simp [cmp]
 
-theorem cmp_calm {a b : Ev} (ha : Calm a) (hb : Calm b) : Calm (cmp a b) := by
-  rcases ha with rfl | rfl | rfl <;> rcases hb with rfl | rfl | rfl <;> simp [cmp, Calm]
-
-theorem inListTail_calm {v0 : Ev} (h0 : Calm v0) (l : List Ev) (hl : ∀ w ∈ l, Calm w) :
-    Calm (inListTail v0 l) := by
+theorem inListTail_np {v0 : Ev} (h0 : NP v0) (l : List Ev) (hl : ∀ w ∈ l, NP w) :
+    NP (inListTail true v0 l) := by
   induction l with
-  | nil => simp [inListTail, Calm]
+  | nil => intro s; simp [inListTail]
   | cons w rest ih =>
     simp only [inListTail]
-    have hw := hl w (by simp)
-    have hc := cmp_calm h0 hw
+    have hc := cmp_np h0 (hl w (by simp))
     split
-    · rename_i s hs; rw [hs] at hc; simp [Calm] at hc
+    · rename_i s hs; exact absurd hs (hc s)
     · split
-      · simp [Calm]
+      · intro s; simp
       · exact ih (fun x hx => hl x (by simp [hx]))
 
-theorem between_calm {a b c : Ev} (ha : Calm a) (hb : Calm b) (hc : Calm c) :
-    Calm (match cmp a b with
+theorem evalOperand_np (sub : List Nat → Nat → Ev) (hsub : ∀ used i, NP (sub used i))
+    (used : List Nat) (o : Operand) : NP (evalOperand true sub used o) := by
+  cases o with
+  | lit l => intro s; simp [evalOperand]
+  | attr => intro s; simp [evalOperand]
+  | elem idx =>
+    simp only [evalOperand]
+    split
+    · intro s; simp
+    · exact hsub _ _
+
+theorem unary_np (a : Ev) : NP a → NP (match a with
+    | .panic s => .panic s
+    | .err => .err
+    | _ => .bool) := by
+  intro ha s
+  cases a with
+  | panic t => exact absurd rfl (ha t)
+  | err => simp
+  | val l => simp
+  | bool => simp
+
+theorem seq2_np (a b : Ev) : NP a → NP b → NP (match a with
+    | .panic s => .panic s
+    | .err => .err
+    | _ => (match b with
+        | .panic s => .panic s
+        | .err => .err
+        | _ => .bool)) := by
+  intro ha hb s
+  cases a with
+  | panic t => exact absurd rfl (ha t)
+  | err => simp
+  | val l => exact unary_np b hb s
+  | bool => exact unary_np b hb s
+
+theorem between_np (a b c : Ev) : NP a → NP b → NP c →
+    NP (match cmp true a b with
       | .panic s => .panic s
       | .err => .err
       | _ =>
         if isEqualInts a b then
-          (match cmp a c with
+          (match cmp true a c with
             | .panic s => .panic s
             | .err => .err
             | _ => .bool)
         else .bool) := by
-  rcases ha with rfl | rfl | rfl <;> rcases hb with rfl | rfl | rfl <;> rcases hc with rfl | rfl | rfl <;>
-    simp [cmp, isEqualInts, Calm]
-
-theorem operand_calm_of_elem (els : List Elem) (fuel : Nat)
-    (hE : ∀ used i, i < els.length → Calm (evalElem els fuel used i))
-    (used : List Nat) (o : Operand) (ho : SafeOperand els.length o) :
-    Calm (evalOperand (evalElem els fuel) used o) := by
-  rcases ho with rfl | ⟨i, rfl, hi⟩
-  · simp [evalOperand, Calm]
-  · simp only [evalOperand]
+  intro ha hb hc s
+  have h1 := cmp_np ha hb
+  have h2 := cmp_np ha hc
+  generalize cmp true a b = x at h1
+  generalize cmp true a c = y at h2
+  cases x with
+  | panic t => exact absurd rfl (h1 t)
+  | err => simp
+  | val l =>
+    simp only []
     split
-    · simp [Calm]
-    · exact hE _ i hi
+    · exact unary_np y h2 s
+    · simp
+  | bool =>
+    simp only []
+    split
+    · exact unary_np y h2 s
+    · simp
 
-/-- **whereClause_no_panic_partial** — partial: only for clauses outside the recorded classes
-(enough operands everywhere, element indices in range, no AttributeOperand, no Empty literal);
-the recorded classes themselves do panic (counterexamples above). -/
-theorem whereClause_no_panic_partial (els : List Elem) (hs : SafeClause els) :
-    whereClausePanics els = none := by
-  have key : ∀ fuel used i, i < els.length → Calm (evalElem els fuel used i) := by
-    intro fuel
-    induction fuel with
-    | zero => intro used i _; simp [evalElem, Calm]
-    | succ fuel ih =>
-      intro used i hi
-      have hO := operand_calm_of_elem els fuel ih used
-      simp only [evalElem]
-      have hget : els[i]? = some els[i] := List.getElem?_eq_getElem hi
-      rw [hget]
-      simp only []
-      obtain ⟨hlen, hops⟩ := hs els[i] (List.getElem_mem hi)
-      have hne : els[i].operands.isEmpty = false := by
-        cases hq : els[i].operands with
-        | nil => rw [hq] at hlen; simp at hlen
-        | cons _ _ => rfl
-      simp only [hne, Bool.false_eq_true, ↓reduceIte]
-      have hv : ∀ k, k < 3 → Calm (match els[i].operands[k]? with
-          | none => Ev.panic .operandIndex
-          | some o => evalOperand (evalElem els fuel) used o) := by
-        intro k hk
-        have hk' : k < els[i].operands.length := by omega
-        rw [List.getElem?_eq_getElem hk']
-        exact hO _ (hops _ (List.getElem_mem hk'))
-      have h0 := hv 0 (by omega)
-      have h1 := hv 1 (by omega)
-      have h2 := hv 2 (by omega)
-      have hl2 : ¬ els[i].operands.length < 2 := by omega
-      have hl3 : ¬ els[i].operands.length < 3 := by omega
-      have hbin := cmp_calm h0 h1
-      have hseq : ∀ {a b : Ev}, Calm a → Calm b → Calm (match a with
-          | .panic s => .panic s
-          | .err => .err
-          | _ => (match b with
-              | .panic s => .panic s
-              | .err => .err
-              | _ => .bool)) := by
-        intro a b ha hb
-        rcases ha with rfl | rfl | rfl <;> rcases hb with rfl | rfl | rfl <;> simp [Calm]
-      have hun : ∀ {a : Ev}, Calm a → Calm (match a with
-          | .panic s => .panic s
-          | .err => .err
-          | _ => .bool) := by
-        intro a ha
-        rcases ha with rfl | rfl | rfl <;> simp [Calm]
-      cases hop : els[i].op <;> simp only [hl2, hl3, ↓reduceIte]
-      · exact hbin
-      · exact hun h0
-      · exact hbin
-      · exact hbin
-      · exact hbin
-      · exact hbin
-      · exact hun h0
-      · -- between
-        exact between_calm h0 h1 h2
-      · -- inList
-        apply inListTail_calm h0
-        intro w hw
-        simp only [List.mem_map] at hw
-        obtain ⟨o, ho, rfl⟩ := hw
-        exact hO _ (hops _ (List.mem_of_mem_drop ho))
-      · exact hseq h0 h1
-      · exact hseq h0 h1
-      · simp [Calm]
+/-- every element of every clause evaluates without reaching a panic site (repaired source) -/
+theorem evalElem_np (els : List Elem) : ∀ fuel used i, NP (evalElem true els fuel used i) := by
+  intro fuel
+  induction fuel with
+  | zero => intro used i s; simp [evalElem]
+  | succ fuel ih =>
+    intro used i
+    have hO := evalOperand_np (evalElem true els fuel) ih used
+    simp only [evalElem]
+    split
+    · intro s; simp
+    · rename_i e _
+      split
+      · intro s; simp
+      · rename_i hne
+        split
+        · intro s; simp
+        · rename_i hmin
+          simp only [Bool.true_and, decide_eq_true_eq, Nat.not_lt] at hmin
+          have hpos : 0 < e.operands.length := by
+            cases hq : e.operands with
+            | nil => simp [hq] at hne
+            | cons _ _ => simp
+          have hv : ∀ k, k < e.operands.length → NP (match e.operands[k]? with
+              | none => Ev.panic .operandIndex
+              | some o => evalOperand true (evalElem true els fuel) used o) := by
+            intro k hk
+            rw [List.getElem?_eq_getElem hk]
+            exact hO _
+          have h0 := hv 0 hpos
+          cases hop : e.op <;> simp only [hop, minOperands] at hmin <;> simp only []
+          all_goals (try (have hl2 : ¬ e.operands.length < 2 := by omega))
+          all_goals (try simp only [hl2, ↓reduceIte])
+          · exact cmp_np h0 (hv 1 (by omega))
+          · exact unary_np _ h0
+          · exact cmp_np h0 (hv 1 (by omega))
+          · exact cmp_np h0 (hv 1 (by omega))
+          · exact cmp_np h0 (hv 1 (by omega))
+          · exact cmp_np h0 (hv 1 (by omega))
+          · exact unary_np _ h0
+          · have hl3 : ¬ e.operands.length < 3 := by omega
+            simp only [hl3, ↓reduceIte]
+            exact between_np _ _ _ h0 (hv 1 (by omega)) (hv 2 (by omega))
+          · apply inListTail_np h0
+            intro w hw
+            simp only [List.mem_map] at hw
+            obtain ⟨o, _, rfl⟩ := hw
+            exact hO _
+          · exact seq2_np _ _ h0 (hv 1 (by omega))
+          · exact seq2_np _ _ h0 (hv 1 (by omega))
+          · intro s; simp
+
+/-- **whereClause_no_panic** — in the repaired source, evaluating ANY where-clause (any operators,
+any number of operands, any element indices, AttributeOperands, literals of any kind) on an event
+reaches no panic site. -/
+theorem whereClause_no_panic (els : List Elem) : whereClausePanics true els = none := by
   unfold whereClausePanics
   split
   · rfl
-  · rename_i hne
-    have hpos : 0 < els.length := by
-      cases els with
-      | nil => simp at hne
-      | cons _ _ => simp
-    have := key (els.length + 1) [0] 0 hpos
-    rcases this with h | h | h <;> simp [h]
+  · have h := evalElem_np els (els.length + 1) [0] 0
+    cases hv : evalElem true els (els.length + 1) [0] 0 with
+    | panic s => exact absurd hv (h s)
+    | err => rfl
+    | val l => rfl
+    | bool => rfl
 
-/-- the hypothesis is satisfiable -/
-example : SafeClause [⟨.and, [.elem 1, .lit .int, .lit .int]⟩, ⟨.between, [.lit .int, .lit .int, .lit .int]⟩] := by
-  intro e he
-  simp only [List.mem_cons, List.mem_nil_iff, or_false] at he
-  rcases he with rfl | rfl
-  · refine ⟨by simp, ?_⟩
-    intro o ho
-    simp only [List.mem_cons, List.mem_nil_iff, or_false] at ho
-    rcases ho with rfl | rfl | rfl
-    · exact Or.inr ⟨1, rfl, by simp⟩
-    · exact Or.inl rfl
-    · exact Or.inl rfl
-  · refine ⟨by simp, ?_⟩
-    intro o ho
-    simp only [List.mem_cons, List.mem_nil_iff, or_false] at ho
-    rcases ho with rfl | rfl | rfl <;> exact Or.inl rfl
-
-/-! ### recorded finding: HasSubtype cycle -/
+/-! ### HasSubtype cycle (repaired: `reference_type_matches` visits each type once) -/
 
 /-- reference types 1 and 2 are each other's subtype (nothing else) -/
 def cycleSubs : Nat → List Nat
@@ -389,7 +414,7 @@ def cycleSubs : Nat → List Nat
   | 2 => [1]
   | _ => []
 
-/-- **Counterexample (recorded finding)**: with a HasSubtype cycle below the reference type asked
+/-- **Counterexample for the pinned source**: with a HasSubtype cycle below the reference type asked
 for, and a reference of a type that is not in that subtree, the loop of `reference_type_matches`
 has not finished after any number of iterations. -/
 theorem C33_counterexample_hassubtype_cycle (fuel : Nat) :
@@ -397,6 +422,11 @@ theorem C33_counterexample_hassubtype_cycle (fuel : Nat) :
   induction fuel with
   | zero => simp [matchLoop]
   | succ n ih => simp [matchLoop, cycleSubs, ih]
+
+/-- the repaired loop answers on the same cycle (within five iterations) -/
+theorem C33_hassubtype_cycle_answered_after_fix :
+    matchLoopVisited cycleSubs 9 5 [] [1] = some false ∧ matchLoopVisited cycleSubs 2 5 [] [1] = some true := by
+  decide
 
 /-- without the cycle the same question is answered -/
 example : matchLoop (fun t => if t = 1 then [2] else []) 9 5 [1] = some false := by decide
